@@ -441,7 +441,7 @@ Section Parse.
               else bind (p_loop f s' pst0) (fun r =>
                      p_loop f (snd r) (mkP (p_toks st) (p_conj st) (Some (fst r)) (p_neg st)))
             else if k =? c_LTOKEN_RPAREN then
-              if match p_sub st, p_conj st, p_toks st with Some _, None, [] => true | _, _, _ => false end then Err
+              if match p_sub st, p_conj st, p_toks st with None, None, [] => true | _, _, _ => false end then Err   (* "()" *)
               else bind (p_finish st) (fun r => Ok (r, s'))
             else if (k =? c_LTOKEN_AND) || (k =? c_LTOKEN_OR) || (k =? c_LTOKEN_XOR) then
               match p_sub st with
